@@ -631,6 +631,52 @@ Proof.
 Qed.
 Lemma seq_split a b : (a <= b)%nat -> seq 0 b = seq 0 a ++ seq a (b - a).
 Proof. intros H. replace b with (a + (b - a))%nat at 1 by lia. apply seq_app. Qed.
+(** ** the cumulative absolute change of a row: step relation, prefixes, constant tails *)
+Lemma diff_cons2 (x y : R) r : diff (x :: y :: r) = (y - x) :: diff (y :: r).
+Proof. reflexivity. Qed.
+Lemma diff_length_cons (x : R) r : length (diff (x :: r)) = length r.
+Proof. revert x; induction r as [|y r IH]; intros x; [reflexivity|]. rewrite diff_cons2. cbn [length]. f_equal. apply IH. Qed.
+Lemma diff_nth (l : list R) i : (S i < length l)%nat -> nth i (diff l) 0 = nth (S i) l 0 - nth i l 0.
+Proof.
+  revert i; induction l as [|x r IH]; intros i Hi; cbn [length] in Hi; [lia|].
+  destruct r as [|y r]; [cbn in Hi; lia|]. rewrite diff_cons2. destruct i as [|i]; [reflexivity|].
+  change (nth (S i) ((y - x) :: diff (y :: r)) 0) with (nth i (diff (y :: r)) 0).
+  change (nth (S (S i)) (x :: y :: r) 0) with (nth (S i) (y :: r) 0).
+  change (nth (S i) (x :: y :: r) 0) with (nth i (y :: r) 0).
+  apply IH. cbn [length] in *. lia.
+Qed.
+Lemma diff_app_prefix (l m : list R) : exists tl, diff (l ++ m) = diff l ++ tl.
+Proof.
+  induction l as [|x r IH]; [eexists; reflexivity|].
+  destruct r as [|y r]; [eexists; reflexivity|].
+  destruct IH as (tl & E). exists tl. change ((x :: y :: r) ++ m) with (x :: y :: (r ++ m)).
+  rewrite !diff_cons2. change (y :: r ++ m) with ((y :: r) ++ m). now rewrite E.
+Qed.
+Lemma cum_abs_row_nth_S (e : list R) i : (S i < length e)%nat ->
+  nth (S i) (cum_abs_row e) 0 = nth i (cum_abs_row e) 0 + Rabs (nth (S i) e 0 - nth i e 0).
+Proof.
+  intros Hi. unfold cum_abs_row. change (@n0 R _) with 0.
+  assert (L : length (vabs (diff (0 :: e))) = length e) by (unfold vabs; rewrite map_length; apply diff_length_cons).
+  rewrite cumsum_nth_S by lia. f_equal.
+  unfold vabs. rewrite nth_map0 by (numR; apply Rabs_R0). numR. f_equal.
+  rewrite diff_nth by (cbn [length]; lia). reflexivity.
+Qed.
+Lemma cum_abs_row_app_prefix (l m : list R) : exists tl, cum_abs_row (l ++ m) = cum_abs_row l ++ tl.
+Proof.
+  unfold cum_abs_row. change (@n0 R _) with 0. destruct (diff_app_prefix (0 :: l) m) as (tl & E).
+  change (0 :: l ++ m) with ((0 :: l) ++ m). rewrite E. unfold vabs. rewrite map_app. unfold cumsum.
+  rewrite cumsum_from_app. eexists. reflexivity.
+Qed.
+Lemma cum_abs_row_const_tail (e : list R) L i : (forall k, (L <= k < length e)%nat -> nth k e 0 = nth L e 0) ->
+  (L <= i < length e)%nat -> nth i (cum_abs_row e) 0 = nth L (cum_abs_row e) 0.
+Proof.
+  intros He Hi.
+  assert (Hk : forall k, (L + k < length e)%nat -> nth (L + k) (cum_abs_row e) 0 = nth L (cum_abs_row e) 0).
+  { induction k as [|k IH]; intros Hk; [now rewrite Nat.add_0_r|]. replace (L + S k)%nat with (S (L + k)) by lia.
+    rewrite cum_abs_row_nth_S by lia. rewrite IH by lia. rewrite (He (S (L + k))), (He (L + k)%nat) by lia.
+    replace (nth L e 0 - nth L e 0) with 0 by lra. rewrite Rabs_R0. lra. }
+  replace i with (L + (i - L))%nat by lia. apply Hk. lia.
+Qed.
 Section RowSingle.
 Variables (nodal : bool) (dt : R) (vals tts : list R) (ur dr : red R) (j : nat).
 Hypothesis Hdt : 0 < dt.
@@ -742,6 +788,86 @@ Proof.
     + apply acc_rows_row_length with (nodal := nodal) (ur := ur1) (dr := dr1). apply nth_In. rewrite acc_rows_length. cbn; lia.
     + apply acc_rows_single_prefix.
 Qed.
+(** untrimmed with start = True: the rows are cut out of the untrimmed rows with the batch-wide length
+    npts + max(0, max_j (int(stt/dt) - int(tt_j/dt))); the single result (length npts + max(0, int(stt/dt) - int(tt/dt)))
+    is a prefix of the batch row *)
+Lemma firstn_le_prefix {A} a b (X : list A) : (a <= b)%nat -> exists tl, firstn b X = firstn a X ++ tl.
+Proof.
+  intros Hab. exists (skipn a (firstn b X)). rewrite <- (firstn_skipn a (firstn b X)) at 1. f_equal.
+  rewrite firstn_firstn. f_equal. lia.
+Qed.
+Lemma firstn_app_le {A} n (X tl : list A) : (n <= length X)%nat -> firstn n (X ++ tl) = firstn n X.
+Proof. intros Hn. rewrite firstn_app. replace (n - length X)%nat with 0%nat by lia. cbn [firstn]. now rewrite app_nil_r. Qed.
+Lemma trim_row_prefix n1 n2 si (l tl : list R) : (n1 <= n2)%nat ->
+  ((si < 0)%Z -> (n1 + Z.to_nat (- si) <= length l)%nat) ->
+  ((0 <= si)%Z -> (Z.to_nat si <= n1)%nat /\ (n1 - Z.to_nat si <= length l)%nat) ->
+  exists tl', trim_row n2 si (l ++ tl) = trim_row n1 si l ++ tl'.
+Proof.
+  intros Hn H1 H2. unfold trim_row, slice. destruct (Z.ltb_spec si 0) as [Hs|Hs].
+  - specialize (H1 Hs). set (a := Z.to_nat (- si)) in *.
+    rewrite skipn_app. replace (a - length l)%nat with 0%nat by lia. cbn [skipn].
+    replace (n2 + a - a)%nat with n2 by lia. replace (n1 + a - a)%nat with n1 by lia.
+    destruct (firstn_le_prefix n1 n2 (skipn a l ++ tl) Hn) as (tl' & ->).
+    rewrite firstn_app_le by (rewrite skipn_length; lia). eexists; reflexivity.
+  - destruct (H2 Hs) as [H3 H4]. set (s := Z.to_nat si) in *.
+    rewrite !Nat.min_l by lia.
+    destruct (firstn_le_prefix (n1 - s) (n2 - s) (l ++ tl) ltac:(lia)) as (tl' & ->).
+    rewrite firstn_app_le by lia. exists tl'. now rewrite app_assoc.
+Qed.
+Lemma start_untrimmed_row_generic (rows_b rows_s : list (list R)) :
+  length rows_b = length tts -> length rows_s = 1%nat ->
+  length (nth 0 rows_s []) = Ls ->
+  (exists tl, nth j rows_b [] = nth 0 rows_s [] ++ tl) ->
+  exists tl',
+  nth j (trim_to_length (length vals) (depth_shifts dt tts) (start_shift dt stt) false true rows_b) [] =
+  nth 0 (trim_to_length (length vals) (depth_shifts dt [t]) (start_shift dt stt) false true rows_s) [] ++ tl'.
+Proof.
+  intros Lb' Ls' Hlen (tl & E).
+  assert (Hd : nth j (depth_shifts dt tts) 0%Z = ntrunc (t / dt)).
+  { unfold depth_shifts. rewrite nth_map_in with (d' := 0) by auto. reflexivity. }
+  assert (Hb : (0 <= ntrunc (t / dt)%R <= Z.of_nat (max_shift dt [t]))%Z).
+  { apply (depth_shifts_bounds dt [t] Hdt); [intros x [<-|[]]; apply Htt, nth_In, Hj | now left]. }
+  pose proof (start_shift_nonneg dt stt Hdt Hstt) as Hss.
+  pose proof (depth_shifts_bounds dt tts Hdt Htt) as Hsds.
+  assert (Hds : length (depth_shifts dt tts) = length tts) by apply map_length.
+  unfold trim_to_length.
+  rewrite map2_nth with (da := 0%Z) (db := []) by (rewrite ?map_length; lia).
+  rewrite map2_nth with (da := 0%Z) (db := []) by (cbn; lia).
+  rewrite nth_map_in with (d' := 0%Z) by lia. rewrite Hd. cbn [depth_shifts map nth].
+  unfold trim_npts. cbn [andb negb zmax zmin fold_left map].
+  set (ss := start_shift dt stt) in *. set (d := ntrunc (t / dt)%R) in *. set (sds := depth_shifts dt tts) in *.
+  assert (Hmin : (0 <= zmin (map (Z.mul 2) sds))%Z).
+  { apply zmin_lb; [lia|]. intros y (d2 & <- & Hd2)%in_map_iff. specialize (Hsds d2 Hd2). lia. }
+  assert (Hge : (ss - d <= zmax (map (fun d0 => ss - d0) sds))%Z).
+  { apply zmax_ge. apply in_map_iff. exists d. split; [reflexivity|]. rewrite <- Hd. apply nth_In. lia. }
+  rewrite E. apply trim_row_prefix; unfold Ls in Hlen; numR; lia.
+Qed.
+Lemma C19_row_single_prefix_start :
+  (exists tl, nth j (surface_energy nodal false true dt vals tts ur dr stt) [] =
+     nth 0 (surface_energy nodal false true dt vals [t] ur1 dr1 stt) [] ++ tl) /\
+  (exists tl, nth j (cum_abs_surface_energy nodal false true dt vals tts ur dr stt) [] =
+     nth 0 (cum_abs_surface_energy nodal false true dt vals [t] ur1 dr1 stt) [] ++ tl) /\
+  (exists tl, nth j (time_shift_motions nodal false true dt vals tts ur dr stt) [] =
+     nth 0 (time_shift_motions nodal false true dt vals [t] ur1 dr1 stt) [] ++ tl).
+Proof.
+  assert (A : exists tl, nth j (surface_energy nodal false true dt vals tts ur dr stt) [] =
+     nth 0 (surface_energy nodal false true dt vals [t] ur1 dr1 stt) [] ++ tl).
+  { unfold surface_energy. apply start_untrimmed_row_generic.
+    - apply energy_rows_length.
+    - apply energy_rows_length.
+    - apply energy_rows_row_length with (nodal := nodal) (ur := ur1) (dr := dr1). apply nth_In. rewrite energy_rows_length. cbn; lia.
+    - apply energy_rows_single_prefix. }
+  split; [exact A|]. split.
+  - destruct A as (tl & A). unfold cum_abs_surface_energy.
+    rewrite nth_map_in with (d' := []) by (rewrite surface_energy_length; auto).
+    rewrite nth_map_in with (d' := []) by (rewrite surface_energy_length; cbn; lia).
+    rewrite A. apply cum_abs_row_app_prefix.
+  - unfold time_shift_motions. apply start_untrimmed_row_generic.
+    + apply acc_rows_length.
+    + apply acc_rows_length.
+    + apply acc_rows_row_length with (nodal := nodal) (ur := ur1) (dr := dr1). apply nth_In. rewrite acc_rows_length. cbn; lia.
+    + apply acc_rows_single_prefix.
+Qed.
 End RowSingle.
 
 Lemma C19_row_eq_single_untrimmed nodal dt (vals tts : list R) ur dr j stt :
@@ -761,6 +887,53 @@ Proof.
     apply nth_In. now rewrite energy_rows_length. }
   intros i Hi. rewrite Lrs, Lrb in *. unfold rb. now apply energy_row_const_tail.
 Qed.
+
+(** the same for the cumulative absolute change and for the motions (untrimmed, start = False); the tail of a motion row
+    is identically zero *)
+Definition prefix_const (rb rs : list R) : Prop :=
+  (exists tl, rb = rs ++ tl) /\ forall i, (length rs <= i < length rb)%nat -> nth i rb 0 = nth (length rs) rb 0.
+Lemma C19_row_eq_single_untrimmed_all nodal dt (vals tts : list R) ur dr j stt :
+  0 < dt -> (forall t, In t tts -> 0 <= t) -> (j < length tts)%nat ->
+  let t := nth j tts 0 in let ur1 := RScalar (red_at ur j) in let dr1 := RScalar (red_at dr j) in
+  prefix_const (nth j (surface_energy nodal false false dt vals tts ur dr stt) [])
+               (nth 0 (surface_energy nodal false false dt vals [t] ur1 dr1 stt) []) /\
+  prefix_const (nth j (cum_abs_surface_energy nodal false false dt vals tts ur dr stt) [])
+               (nth 0 (cum_abs_surface_energy nodal false false dt vals [t] ur1 dr1 stt) []) /\
+  prefix_const (nth j (time_shift_motions nodal false false dt vals tts ur dr stt) [])
+               (nth 0 (time_shift_motions nodal false false dt vals [t] ur1 dr1 stt) []) /\
+  (forall i, (length (nth 0 (time_shift_motions nodal false false dt vals [t] ur1 dr1 stt) []) <= i)%nat ->
+     nth i (nth j (time_shift_motions nodal false false dt vals tts ur dr stt) []) 0 = 0).
+Proof.
+  intros Hdt Htt Hj t ur1 dr1.
+  pose proof (C19_row_eq_single_untrimmed nodal dt vals tts ur dr j stt Hdt Htt Hj) as A. cbv zeta in A.
+  fold t ur1 dr1 in A. split; [exact A|].
+  assert (Ht : 0 <= t) by (apply Htt, nth_In, Hj).
+  assert (Z : forall i, (length (nth 0 (time_shift_motions nodal false false dt vals [t] ur1 dr1 stt) []) <= i)%nat ->
+     nth i (nth j (time_shift_motions nodal false false dt vals tts ur dr stt) []) 0 = 0).
+  { unfold time_shift_motions, trim_to_length. intros i.
+    rewrite acc_rows_nth by auto. rewrite acc_rows_nth by (cbn; lia). rewrite map_length, seq_length. intros Hi.
+    destruct (Nat.lt_ge_cases i (length vals + max_shift dt tts)) as [H|H].
+    - rewrite nth_tab by auto. fold t. apply accf_tail_zero; auto.
+    - apply nth_overflow. now rewrite map_length, seq_length. }
+  split; [|split; [|exact Z]].
+  - destruct A as [(tl & A1) A2]. unfold cum_abs_surface_energy.
+    rewrite nth_map_in with (d' := []) by (rewrite surface_energy_length; auto).
+    rewrite nth_map_in with (d' := []) by (rewrite surface_energy_length; cbn; lia).
+    split; [rewrite A1; apply cum_abs_row_app_prefix|].
+    intros i Hi. rewrite !cum_abs_row_length in *. now apply cum_abs_row_const_tail.
+  - split; [unfold time_shift_motions, trim_to_length; now apply acc_rows_single_prefix|].
+    intros i Hi. rewrite !Z by lia. reflexivity.
+Qed.
+Lemma C19_row_single_prefix_start' nodal dt (vals tts : list R) ur dr j stt :
+  0 < dt -> (forall t, In t tts -> 0 <= t) -> (j < length tts)%nat -> 0 <= stt ->
+  let t := nth j tts 0 in let ur1 := RScalar (red_at ur j) in let dr1 := RScalar (red_at dr j) in
+  (exists tl, nth j (surface_energy nodal false true dt vals tts ur dr stt) [] =
+     nth 0 (surface_energy nodal false true dt vals [t] ur1 dr1 stt) [] ++ tl) /\
+  (exists tl, nth j (cum_abs_surface_energy nodal false true dt vals tts ur dr stt) [] =
+     nth 0 (cum_abs_surface_energy nodal false true dt vals [t] ur1 dr1 stt) [] ++ tl) /\
+  (exists tl, nth j (time_shift_motions nodal false true dt vals tts ur dr stt) [] =
+     nth 0 (time_shift_motions nodal false true dt vals [t] ur1 dr1 stt) [] ++ tl).
+Proof. intros. now apply C19_row_single_prefix_start. Qed.
 
 (** a scalar reduction factor is an array of equal entries *)
 Lemma map_idx_from_ext_in {A B} (f g : nat -> A -> B) j0 l :
